@@ -340,8 +340,8 @@ fn body(h: Harness) -> Arc<dyn Fn(&Arc<Sched>) -> Obs + Send + Sync> {
             let h2 = handle.clone();
             hs.push(s.spawn("reopen", move || {
                 h2.reopen_output().ok();
-                // keep the clone alive: dropping a handle clone must not matter, but that is C04's subject
-                std::mem::forget(h2);
+                // (the clone is dropped here: leaking it would keep the log file open for ever)
+                drop(h2);
             }));
         }
         for jh in hs {
